@@ -142,10 +142,13 @@ func verifC19Decode(b []byte) any {
 }
 
 func TestVerifC19IAM(t *testing.T) {
+	if crash.Supervise(t) {
+		return // this process supervised a child that ran the sweep
+	}
 	logrus.SetOutput(io.Discard)
 	logrus.SetLevel(logrus.PanicLevel)
 	r := ev.Start(t, "C19")
-	defer r.Finish()
+	defer func() { r.Finish(); crash.MarkDone() }()
 	s := crash.NewSweep(r, "C19")
 	r.Rule("iam OpenID4VP endpoints: (1) HandleAuthorizeResponse on a LIVE verifier session (fresh state + nonce per case): every single mutation of header and claims of a valid signed JWT presentation, of a JSON-LD presentation, of the presentation submission, JOSE serialisation variants, and the raw vp_token alphabet {[], [ ], [[]], null, {}, \"\", arrays of 1-2 presentations with foreign entries} x state {live, unknown, other tenant} x subject; error responses; (2) handleAuthorizeRequestFromVerifier with a user session: every single mutation of the request parameters and the inline client_metadata / presentation_definition alphabet {valid, null, [], {}, 0, \"x\", truncated} x uri variants answered {valid, zero value, error}, organisation and user wallet; (3) the direct_post answer loop with a verifier that answers N openid4vp: redirects in a row")
 	only := os.Getenv("VERIF_C19_ONLY")
@@ -224,12 +227,12 @@ func TestVerifC19IAM(t *testing.T) {
 			b := strings.ReplaceAll(string(verifC19JSON(doc)), "NONCE-PLACEHOLDER", nonce)
 			return verifC19Decode([]byte(b))
 		}
-		s.JSON(nameR, "jwt-vp/claims", vpClaims("NONCE-PLACEHOLDER"), enum.Options{Hostile: true}, false, false, func(doc any) ([]byte, func() string) {
+		s.JSON(nameR, "jwt-vp/claims", vpClaims("NONCE-PLACEHOLDER"), enum.Options{Hostile: true, ExtremeInts: true}, false, false, func(doc any) ([]byte, func() string) {
 			st, nonce := live()
 			tok := crash.CompactJSON(vpHeader, withNonce(doc, nonce), holderKey)
 			return []byte(tok), func() string { return respond(subject, &st, &tok, &subRaw, nil) }
 		})
-		s.JSON(nameR, "jwt-vp/header", vpHeader, enum.Options{Hostile: true}, false, false, func(doc any) ([]byte, func() string) {
+		s.JSON(nameR, "jwt-vp/header", vpHeader, enum.Options{Hostile: true, ExtremeInts: true}, false, false, func(doc any) ([]byte, func() string) {
 			st, nonce := live()
 			tok := crash.CompactJSON(doc, vpClaims(nonce), holderKey)
 			return []byte(tok), func() string { return respond(subject, &st, &tok, &subRaw, nil) }
@@ -245,12 +248,12 @@ func TestVerifC19IAM(t *testing.T) {
 		ldVP := map[string]any{"@context": []any{"https://www.w3.org/2018/credentials/v1", "https://w3c-ccg.github.io/lds-jws2020/contexts/lds-jws2020-v1.json"}, "type": "VerifiablePresentation",
 			"holder": holder, "verifiableCredential": jwtVC, "proof": map[string]any{"type": "JsonWebSignature2020", "created": time.Now().UTC().Format(time.RFC3339), "proofPurpose": "authentication",
 				"challenge": "NONCE-PLACEHOLDER", "domain": audience, "verificationMethod": holder + "#0", "jws": "eyJhbGciOiJFUzI1NiIsImI2NCI6ZmFsc2UsImNyaXQiOlsiYjY0Il19..c2ln"}}
-		s.JSON(nameR, "ld-vp", ldVP, enum.Options{Hostile: true}, false, false, func(doc any) ([]byte, func() string) {
+		s.JSON(nameR, "ld-vp", ldVP, enum.Options{Hostile: true, ExtremeInts: true}, false, false, func(doc any) ([]byte, func() string) {
 			st, nonce := live()
 			tok := string(verifC19JSON(withNonce(doc, nonce)))
 			return []byte(tok), func() string { return respond(subject, &st, &tok, &subRaw, nil) }
 		})
-		s.JSON(nameR, "submission", submission, enum.Options{Hostile: true}, false, false, func(doc any) ([]byte, func() string) {
+		s.JSON(nameR, "submission", submission, enum.Options{Hostile: true, ExtremeInts: true}, false, false, func(doc any) ([]byte, func() string) {
 			st, nonce := live()
 			tok := crash.CompactJSON(vpHeader, vpClaims(nonce), holderKey)
 			sub := string(verifC19JSON(doc))
@@ -389,7 +392,11 @@ func TestVerifC19IAM(t *testing.T) {
 					return request(userCtx, oauthParameters(m), owner)
 				}
 			})
-			inline := map[string]string{"valid": "", "null": "null", "array": "[]", "object": "{}", "zero": "0", "string": `"x"`, "true": "true", "ws-null": " null ", "truncated": `{"id":`, "nested-null": `{"id":null,"input_descriptors":null,"vp_formats":null}`, "array-null": "[null]"}
+			inline := map[string]string{"valid": "", "null": "null", "array": "[]", "object": "{}", "zero": "0", "string": `"x"`, "true": "true", "ws-null": " null ", "truncated": `{"id":`, "nested-null": `{"id":null,"input_descriptors":null,"vp_formats":null}`, "array-null": "[null]",
+				"count-negative": `{"id":"p","input_descriptors":[{"id":"d","group":["A"],"constraints":{"fields":[{"path":["$.type"]}]}}],"submission_requirements":[{"rule":"pick","count":-1,"from":"A"}]}`,
+				"max-2^63-1":     `{"id":"p","input_descriptors":[{"id":"d","group":["A"],"constraints":{"fields":[{"path":["$.type"]}]}}],"submission_requirements":[{"rule":"pick","max":9223372036854775807,"from":"A"}]}`,
+				"max-1e11":       `{"id":"p","input_descriptors":[{"id":"d","group":["A"],"constraints":{"fields":[{"path":["$.type"]}]}}],"submission_requirements":[{"rule":"pick","max":100000000000,"from":"A"}]}`,
+				"min-negative":   `{"id":"p","input_descriptors":[{"id":"d","group":["A"],"constraints":{"fields":[{"path":["$.type"]}]}}],"submission_requirements":[{"rule":"pick","min":-9223372036854775808,"max":-1,"from":"A"}]}`}
 			for _, mk := range sortedKeysIAM(inline) {
 				for _, pk := range sortedKeysIAM(inline) {
 					for _, uriKind := range []string{"none", "valid", "zero", "unreachable"} {
